@@ -362,6 +362,92 @@ def rule_C(ck, units):
             ck.ob('C.empty-level-contained', 'catch|amgcl::amg::level::step_down', f.where(), ok, '' if ok else 'step_down does not catch error::empty_level around transfer_operators')
 
 
+def rule_D(ck, units):
+    import omp
+    ck.rule('D.local-arrays-initialised', 'a local C array declared without initialiser whose elements are read (directly, through a pointer alias, or by a callee) is initialised over its '
+                                          'whole used extent outside of any OpenMP region: writes to the slot of the executing thread inside a parallel region cover only the threads that take part in it', 1)
+    done = set()
+    for u in units.values():
+        an = Analyzer([u])
+        for f in u.funcs:
+            if f.cfg is None:
+                continue
+            arrays = []
+            for n in f.nodes.values():
+                if n['k'] == 'decl':
+                    for v in n['v']:
+                        t = u.type(f.decl(v['d']).get('t')) or ''
+                        if v.get('init') is None and t.rstrip().endswith(']') and f.decl(v['d']).get('k') == 'local' and not v.get('static'):
+                            arrays.append((v, n))
+            if not arrays:
+                continue
+            key0 = (f.file, f.line)
+            if key0 in done:
+                continue
+            done.add(key0)
+            regs = omp.regions(f)
+            for v, dn in arrays:
+                d = v['d']
+                # pointer aliases: p = arr;  T *p = arr;
+                aliases = {d}
+                for n in f.nodes.values():
+                    if n['k'] == 'bin' and n['op'] == '=' and unwrap(n['x'])['k'] == 'ref' and unwrap(n['y']) is not None and unwrap(n['y'])['k'] == 'ref' and unwrap(n['y'])['d'] == d:
+                        aliases.add(unwrap(n['x'])['d'])
+                    if n['k'] == 'decl':
+                        for w in n['v']:
+                            if w.get('init') is not None and unwrap(w['init']) is not None and unwrap(w['init'])['k'] == 'ref' and unwrap(w['init'])['d'] == d:
+                                aliases.add(w['d'])
+                fills, slots, elems, reads = [], [], [], []
+                for n in f.nodes.values():
+                    if n['k'] == 'bin' and n['op'] == '=':
+                        x = unwrap(n['x'])
+                        if x is not None and x['k'] == 'idx' and unwrap(x['b'])['k'] == 'ref' and unwrap(x['b'])['d'] in aliases:
+                            reg = [r for r in regs if any(y is n for y in walk(r.node))]
+                            loops = [a for a in f.ancestors(n) if a['k'] in ('for', 'while')]
+                            ivs = set()
+                            for L in loops:
+                                ivs |= loop_vars(L)
+                            idxrefs = {y['d'] for y in walk(x['x']) if y['k'] == 'ref'}
+                            if reg:
+                                sh = omp.Sharing(an, f, reg[0])
+                                why = sh.owned_expr(x['x']) or ''
+                                (slots if 'thread number' in why else elems).append(n)
+                            elif idxrefs & ivs:
+                                fills.append(n)
+                            else:
+                                elems.append(n)
+                    elif n['k'] == 'call' and n.get('f') in ('std::fill', 'std::fill_n') and n.get('a') and unwrap(n['a'][0])['k'] == 'ref' and unwrap(n['a'][0])['d'] in aliases:
+                        fills.append(n)
+                    elif n['k'] == 'ref' and n['d'] in aliases:
+                        p_ = f.nodes.get(f.parent.get(n['i']))
+                        # a read: element read, or the array / alias handed to a callee or used in pointer arithmetic that is
+                        up = n
+                        isread = False
+                        for a in f.ancestors(n):
+                            if a['k'] in ('cast',):
+                                up = a
+                                continue
+                            if a['k'] == 'idx' and unwrap(a['b']) is n:
+                                pa = f.nodes.get(f.parent.get(a['i']))
+                                isread = not (pa is not None and pa['k'] == 'bin' and pa['op'] == '=' and unwrap(pa['x']) is a)
+                            elif a['k'] == 'call':
+                                isread = True
+                            elif a['k'] == 'bin' and a['op'] in ('+', '-'):
+                                up = a
+                                continue
+                            break
+                        if isread:
+                            reads.append(n)
+                if not reads:
+                    continue
+                ok = bool(fills) or not slots
+                key = '%s|%s|%s' % (f.rel(), f.q, v['n'])
+                ck.ob('D.local-arrays-initialised', key, f.where(dn), ok,
+                      '' if ok else 'in %s: the local array `%s` (declared without initialiser) is written only at the slot of the executing thread (%s) and then read as a whole (%s): '
+                                    'the slots of threads that do not take part in the region hold uninitialised stack memory' % (
+                                        f.full[:80], v['n'], f.where(slots[0]), f.where(reads[-1])), trivial=not slots)
+
+
 def main(tier):
     ck = Check('C10', tier, 'C10 (clauses): raw-allocated arrays are completely filled; arrays are freed only by their owner; empty_level never escapes the hierarchy construction.')
     T = os.path.join(ir.VERIF, 'tus')
@@ -372,6 +458,7 @@ def main(tier):
     rule_A(ck, units, 25)
     c17.rule_C(ck, units)
     rule_C(ck, units)
+    rule_D(ck, units)
     ck.assumptions += ['index arithmetic in range for all inputs and leaks on exception paths are not decided',
                        'arrays written only at the diagonal entry rely on the documented precondition of a structurally present diagonal']
     return ck.finish()
